@@ -27,17 +27,80 @@ def build(repo, tier):
     fm = repo.func(PM, 'match')
     cm = match_contract(loop)
     units.append(Unit('C13/py/match', verify_unit(repo, cs, fm, cm, opts={'loops': {('match', 0): loop}})))
+    for ar in (0, 1, 2, 3):
+        n = f'C13/py/Notation.matches [arity = {ar}]'
+        units.append(Unit(n, matches_unit(repo, cs, ar)))
+        BOUNDED_MATCHES[n] = f'Notation.matches / assert_matches on a symbolic definition and pattern; the arity is fixed to {ar} (bound: arity <= 3)'
     du, dt, dfn = merge(destructuring_units(repo, cs, 'C13', unwrap_classes=('Implies', 'App'), meths=('unwrap',)),
                         simplify_units(repo, cs, 'C13'), eq_units(repo, cs, 'C13'),
                         family_units(repo, cs, 'C13', 'instantiate'))
     units += du
     targets.update(dt)
-    return PropSpec('C13', units, LIB, targets, trusted=TRUSTED_ENGINE,
+    spec = PropSpec('C13', units, LIB, targets, trusted=TRUSTED_ENGINE,
                     assumptions=PY_ASSUMPTIONS + [
                         'match_single mutates the dict passed as `extend`; the caller-visible mutation is not modelled (its callers rebind or discard the argument)',
                         'completeness is decided for solutions rho that are total on the metavariables of the (substitution-free) pattern',
                         'dict insertion order of the returned substitution is not part of the contract'],
-                    functions=[(PFILE, 'match_single'), (PFILE, 'match')] + dfn)
+                    functions=[(PFILE, 'match_single'), (PFILE, 'match'), (PFILE, 'Notation.matches'), (PFILE, 'Notation.assert_matches')] + dfn)
+    spec.bounded_units = dict(BOUNDED_MATCHES)
+    return spec
+
+
+BOUNDED_MATCHES = {}
+
+
+def matches_unit(repo, cs, arity):
+    """Notation.matches(pattern): None exactly when match_single(definition, pattern) finds no match; otherwise the tuple whose i-th entry is the
+    binding of metavariable i, or MetaVar(i) when the definition does not mention i.  assert_matches returns the same tuple or raises."""
+    def unit(ctx):
+        from vc.pyfe import Interp, Obj
+        from vc.engine import SymRaise
+        from vc.spec import pwf, expand, expandmap, mhas, mget
+        import z3
+        d = ctx.input('ppat', 'definition')
+        pat = ctx.input('ppat', 'pattern')
+        ctx.assume(z3.And(pwf(d.t), pwf(pat.t)))
+        ctx.check_feasible()
+        calls = []
+        real = cs['match_single']
+
+        class Rec:
+            name = 'match_single'
+
+            def apply(self, interp, c, args, kwargs=None):
+                r = real.apply(interp, c, args, kwargs)
+                calls.append((args, r))
+                return r
+        contracts = dict(cs)
+        contracts['match_single'] = Rec()
+        interp = Interp(repo, ctx, contracts, opts={'skip_post_init': True})
+        n = Obj(repo.cls(PM, 'Notation'), {'label': 'n', 'arity': arity, 'definition': d, 'format_str': 'x'})
+        which = ctx.choose(2, 'matches / assert_matches')
+        ctx.cover('call')
+        f = repo.func(PM, 'Notation.matches' if which == 0 else 'Notation.assert_matches')
+        try:
+            r = interp.run_function(f, [n, pat])
+        except SymRaise as e:
+            ok = which == 1 and e.cls == 'AssertionError' and len(calls) == 1 and calls[0][1] is None
+            ctx.oblige('post:raises only from assert_matches, and only when there is no match', z3.BoolVal(bool(ok)), kind='post', got=repr(e.cls))
+            raise
+        ok_call = len(calls) == 1 and calls[0][0][0] is d and calls[0][0][1] is pat and (len(calls[0][0]) < 3 or calls[0][0][2] is None)
+        ctx.oblige('post:the definition is matched against the pattern, once, without a seed', z3.BoolVal(bool(ok_call)), kind='post')
+        if not ok_call:
+            return r
+        m = calls[0][1]
+        if m is None:
+            ctx.oblige('post:no match -> None', z3.BoolVal(r is None), kind='post')
+            return r
+        ok_shape = isinstance(r, tuple) and len(r) == arity
+        ctx.oblige('post:one entry per argument of the notation', z3.BoolVal(bool(ok_shape)), kind='post', got=repr(r)[:200])
+        if ok_shape:
+            M = expandmap(m.t)
+            for i in range(arity):
+                want = z3.If(mhas(M, z3.IntVal(i)), mget(M, z3.IntVal(i)), expand(interp.mk_pat('MetaVar', [i, (), (), (), (), ()]).t))
+                ctx.oblige(f'post:entry {i} is the binding of metavariable {i}, or the metavariable itself', expand(r[i].t) == want, kind='post')
+        return r
+    return unit
 
 
 MS_PRELUDE = '''
